@@ -26,6 +26,15 @@ Slice(a, b) == [o |-> "slice", a |-> a, b |-> b]
 Sort(terms) == [o |-> "sort", terms |-> terms]
 Term(e, asc) == [e |-> e, asc |-> asc]
 IdOp == [o |-> "id"]
+\* User-defined operations of the extension API (subclasses of RowFilter / Reordering with
+\* TRUTHFUL flags; the iteration engine evaluates them through apply_custom_unary_operation):
+\*   reverse    Reordering, order-dependent                 rows in reverse order
+\*   sortsum    Reordering, not order-dependent (like Sort) stable sort by a + b, needs {a, b}
+\*   apos       RowFilter on column a (a > 0), needs {a}
+\*   evencount  RowFilter, count-dependent                  all rows when their number is even, else none
+\*   everyother RowFilter, order- and count-dependent, empty-invariant   rows 1, 3, 5, ...
+Cust(f) == [o |-> "cust", f |-> f]
+CustNames == {"reverse", "sortsum", "apos", "evencount", "everyother"}
 NoneOp == [o |-> "none"]
 Err(cls) == [err |-> cls]
 IsErr(x) == Has(x, "err")
@@ -70,8 +79,16 @@ SliceSeq(rows, a, b) ==
     LET hi == IF b = -1 THEN Len(rows) ELSE Min2(b, Len(rows)) IN
     IF a >= hi THEN <<>> ELSE SubSeq(rows, a + 1, hi)
 
+ApplyCust(f, rows) ==
+    CASE f = "reverse"    -> [i \in DOMAIN rows |-> rows[Len(rows) + 1 - i]]
+      [] f = "sortsum"    -> SortRows(rows, <<Term(Fn("add", <<Ref("a"), Ref("b")>>), TRUE)>>)
+      [] f = "apos"       -> FilterSeq(rows, Cmp("gt", Ref("a"), Lit(0)))
+      [] f = "evencount"  -> IF Len(rows) % 2 = 0 THEN rows ELSE <<>>
+      [] f = "everyother" -> [i \in 1..((Len(rows) + 1) \div 2) |-> rows[2 * i - 1]]
+
 ApplyOp(op, rows) ==
-    CASE op.o = "calc"  -> [i \in DOMAIN rows |-> Extend(rows[i], op.tag, EvalE(op.e, rows[i]))]
+    CASE op.o = "cust"  -> ApplyCust(op.f, rows)
+      [] op.o = "calc"  -> [i \in DOMAIN rows |-> Extend(rows[i], op.tag, EvalE(op.e, rows[i]))]
       [] op.o = "proj"  -> [i \in DOMAIN rows |-> Restrict(rows[i], op.cols)]
       [] op.o = "sel"   -> FilterSeq(rows, op.p)
       [] op.o = "dedup" -> DedupSeq(rows)
@@ -89,11 +106,20 @@ SameBag(r1, r2) == Len(r1) = Len(r2) /\ BagOf(r1) = BagOf(r2)
 (***************************************************************************)
 (* Static metadata, as coded                                               *)
 (***************************************************************************)
+IsCust(op, fs) == op.o = "cust" /\ op.f \in fs
+CountDep(op) == op.o = "slice" \/ IsCust(op, {"evencount", "everyother"})
+OrderDep(op) == op.o = "slice" \/ IsCust(op, {"reverse", "everyother"})
+EmptyInv(op) == op.o \notin {"sel", "slice"} /\ ~IsCust(op, {"apos", "evencount"})
+CountInv(op) == op.o \in {"calc", "proj", "sort", "id"} \/ IsCust(op, {"reverse", "sortsum"})
+IsReordering(op) == op.o = "sort" \/ IsCust(op, {"reverse", "sortsum"})
+IsRowFilter(op) == op.o \in {"sel", "slice"} \/ IsCust(op, {"apos", "evencount", "everyother"})
+
 ReqOp(op) ==
     CASE op.o = "calc" -> ReqE(op.e)
       [] op.o = "proj" -> op.cols
       [] op.o = "sel"  -> ReqP(op.p)
       [] op.o = "sort" -> UNION {ReqE(op.terms[i].e) : i \in DOMAIN op.terms}
+      [] op.o = "cust" -> IF op.f = "sortsum" THEN {"a", "b"} ELSE IF op.f = "apos" THEN {"a"} ELSE {}
       [] OTHER -> {}
 
 OpCols(op, tcols) ==
@@ -107,6 +133,9 @@ OpMin(op, tmin, tmax, tcols) ==
       [] op.o = "dedup" -> IF tmin >= 1 THEN 1 ELSE 0
       [] op.o = "slice" -> LET stop == IF op.b # -1 THEN Min2(op.b, tmin) ELSE tmin
                            IN Max2(stop - op.a, 0)
+      \* RowFilter.applied_min_rows (the default the extension operations inherit)
+      [] IsCust(op, {"apos", "evencount", "everyother"}) ->
+            IF tmin = 0 THEN 0 ELSE IF EmptyInv(op) THEN 1 ELSE 0
       [] OTHER -> tmin
 
 OpMax(op, tmin, tmax, tcols) ==
@@ -116,12 +145,6 @@ OpMax(op, tmin, tmax, tcols) ==
             THEN LET stop == IF tmax # -1 THEN Min2(op.b, tmax) ELSE op.b IN Max2(stop - op.a, 0)
             ELSE IF tmax # -1 THEN Max2(tmax - op.a, 0) ELSE -1
       [] OTHER -> tmax
-
-CountDep(op) == op.o = "slice"
-OrderDep(op) == op.o = "slice"
-EmptyInv(op) == op.o \notin {"sel", "slice"}
-CountInv(op) == op.o \in {"calc", "proj", "sort", "id"}
-IsReordering(op) == op.o = "sort"
 
 SupOp(op, kind) ==
     CASE op.o = "calc" -> SupE(op.e, kind)
@@ -203,6 +226,7 @@ Refuse(cur) == Commutator(NoneOp, cur, FALSE)
 
 \* TRUE: the code after the fix of finding F21 (a companion configuration overrides it)
 FixF21 == TRUE
+FixF25 == TRUE
 CommuteG(new, cur, tc, sortFix) ==
     LET curCols == OpCols(cur, tc) IN
     CASE new.o = "calc" ->
@@ -213,7 +237,9 @@ CommuteG(new, cur, tc, sortFix) ==
             ELSE Commutator(new, IF cur.o = "proj" THEN Proj(cur.cols \cup {new.tag}) ELSE cur, TRUE)
       [] new.o = "dedup" ->
             IF ~(tc \subseteq curCols) THEN Refuse(cur)
-            ELSE IF CountDep(cur) THEN Refuse(cur)
+            \* (fix of finding F25) a deduplication keeps the FIRST occurrence of each row, so it is
+            \* not moved upstream of an order-dependent operation either
+            ELSE IF CountDep(cur) \/ (FixF25 /\ OrderDep(cur)) THEN Refuse(cur)
             ELSE Commutator(new, cur, TRUE)
       [] new.o = "proj" ->
             IF cur.o = "proj" THEN Commutator(new, IdOp, TRUE)
@@ -234,6 +260,8 @@ CommuteG(new, cur, tc, sortFix) ==
             ELSE IF sortFix /\ IsReordering(cur) THEN Refuse(cur)
             ELSE Commutator(new, cur, TRUE)
       [] new.o = "id" -> Commutator(new, cur, TRUE)
+      \* extension operations inherit UnaryOperation.commute: "does not commute with anything"
+      [] new.o = "cust" -> Refuse(cur)
 Commute(new, cur, tc) == CommuteG(new, cur, tc, TRUE)
 
 (***************************************************************************)
